@@ -607,16 +607,21 @@ def timetables(durations=(0, 0.5, 1, 2), max_len=3):
             yield [(d, states[i]) for i, d in enumerate(ds)]
 
 
-def SCHED(schedule, cyclical, prereg=(), K=0, horizon=6, second=None):
+def SCHED(schedule, cyclical, prereg=(), K=0, horizon=6, second=None, inline=False):
     '''One scheduler, two plain objects; registrations before the run (prereg) and injected during it.'''
     devs = [obj('o1'), obj('o2'), sched('A', schedule, cyclical, prereg)]
     ops = [('reg', 'A', 'o1', 'default'), ('reg', 'A', 'o2', 'override'), ('unreg', 'A', 'o1'), ('unreg', 'A', 'o2'),
            ('reg', 'A', 'o1', 'override')]
+    if inline:
+        ops = [('reginline', 'A', 'tmp'), ('unreg', 'A', 'o1'), ('reg', 'A', 'o1', 'default')]
     if second is not None:
         devs.append(sched('B', second, True, [('o1', 'default')]))
     tag = ','.join(f'{d}{s}' for d, s in schedule)
-    nm = f'SCHED[{tag}|{"cyc" if cyclical else "once"}|pre{len(prereg)}|{"2|" if second else ""}K{K}]'
-    return spec(nm, devs, horizon, ops, K)
+    nm = f'SCHED[{tag}|{"cyc" if cyclical else "once"}|pre{len(prereg)}|{"2|" if second else ""}{"inline|" if inline else ""}K{K}]'
+    sp = spec(nm, devs, horizon, ops, K)
+    if inline:
+        sp['op_limits'] = [1, None, None]       # one object created on the spot (a second one would be another object of the same name)
+    return sp
 
 
 def SCHED_SAME(K=0, horizon=4):
